@@ -358,10 +358,20 @@ class RealRun:
                     regs[h] = None
         return {"arrays": arrays, "regs": regs}
 
-    def run(self, prog, read=False):
+    def interfere(self):
+        """A second, independent connection of the same process ("bob") measures and flushes: it must not
+        disturb this connection's half-built subroutine."""
+        if getattr(self, "other", None) is None:
+            self.other = P.PipelineConnection("bob", executor=P.TraceExecutor(name="bob"))
+        Qubit(self.other).measure()
+        self.other.flush()
+
+    def run(self, prog, read=False, interfere=False):
         """Returns self; .subs/.snaps/.err filled like the model's RunOut."""
         for step, t in enumerate(prog):
             self.first_exc = None
+            if interfere and step > 0:
+                self.interfere()
             try:
                 if t["k"] == "flush":
                     self.flush()
@@ -1157,14 +1167,16 @@ def n_outcomes_needed(prog):
     return 64
 
 
-def oracle(prog, outcomes):
+def oracle(prog, outcomes, keep=None, interfere=False):
     """Model-free check of one program: real SDK -> bytes -> real Executor vs `Direct`.
     Returns (status, failures): status in {"ok", "invalid", "fail"}; failures is a list of dicts."""
     try:
         d = Direct(outcomes).run(prog)
     except Invalid as e:
         return "invalid", str(e)
-    r = RealRun(execute=True, outcomes=outcomes).run(prog, read=True)
+    r = RealRun(execute=True, outcomes=outcomes).run(prog, read=True, interfere=interfere)
+    if keep is not None:
+        keep["real"] = r
     if r.err is not None:
         return "fail", [{"what": "real SDK/controller raised on a valid program", "err": r.err,
                          "exec_err": r.exec_err, "exc": repr(r.first_exc), "feature": "raise"}]
@@ -1290,7 +1302,7 @@ def _norm_trace_model(tr):
 SKIP_INVALID = ("value outside 32 bits", "step budget")
 
 
-def cross_hsem(driver, prog, outcomes, model=None, fuel=4000):
+def cross_hsem(driver, prog, outcomes, model=None, fuel=4000, hres=None):
     """Lean `HostSem` (driver op sdk.hsem) vs the direct Python interpreter `Direct` on one program.
     Compared only when the model's builder accepts the program (build errors are not run-time
     semantics).  Returns (status, detail): status in ok / skip / differ."""
@@ -1305,7 +1317,7 @@ def cross_hsem(driver, prog, outcomes, model=None, fuel=4000):
         if any(str(e).startswith(x) for x in SKIP_INVALID):
             return "skip", str(e)
         dres = {"ok": False, "why": str(e)}
-    h = driver.call({"op": "sdk.hsem", "p": prog, "outs": list(outcomes), "fuel": fuel})
+    h = hres if hres is not None else driver.call({"op": "sdk.hsem", "p": prog, "outs": list(outcomes), "fuel": fuel})
     if not dres["ok"]:
         if h["ok"]:
             return "differ", {"what": "Direct rejects the program, HostSem evaluates it", "direct": dres["why"]}
@@ -1323,14 +1335,14 @@ def cross_hsem(driver, prog, outcomes, model=None, fuel=4000):
     return "ok", None
 
 
-def cross_exec(driver, prog, outcomes, fuel=60000):
+def cross_exec(driver, prog, outcomes, fuel=60000, real=None):
     """Lean `ProtoExec` run of the MODEL's proto-subroutines (driver op sdk.exec) vs the real SDK ->
     assembler -> bytes -> real Executor on the same program: arrays, handle registers, trace after
     every flush.  Validates the hand-written label-level semantics (and, indirectly, C03's step)."""
     e = driver.call({"op": "sdk.exec", "p": prog, "outs": list(outcomes), "fuel": fuel})
     if e.get("builderr"):
         return "skip", "build error"
-    r = RealRun(execute=True, outcomes=outcomes).run(prog, read=True)
+    r = real if real is not None else RealRun(execute=True, outcomes=outcomes).run(prog, read=True)
     if r.err is not None:
         if e["ok"]:
             if r.err[1] == "steplimit":
